@@ -21,6 +21,8 @@ class Gen:
         self.procs: list[dict] = []
         self.calls: list[dict] = []
         self._dummy = False
+        self.compar: set[str] = set()
+        self.bound: list[dict] = []   # type-bound procedures: binding name, line, expected head of the hover
         self.nondocs: list[str] = []  # '!!' comments that trail executable statements: documentation of nothing
         self.r2 = random.Random(hash(rnd.getstate()))  # choices added later: earlier programs keep their shape
 
@@ -237,6 +239,11 @@ class Gen:
         for i, a in enumerate(args):
             nested = r.choice(["q(1)", "q(fx(1, 2))", "3", "w(2, 3)", "(1 + 2)", "q(1:2)", "'x,y'", '"a(b,"', "len('p,q')"])
             if i < n_pos:
+                if len(args) > 1 and self.r2.random() < 0.25:
+                    # a comparison whose left operand is spelled like another dummy argument is not keyword=value
+                    other = self.r2.choice([x for x in args if x != a])
+                    nested = other + self.r2.choice([" == 1", "==1", " /= 2", " >= 1", " <= q(1)"])
+                    self.compar.add(nested)
                 texts.append(nested)
             else:
                 texts.append(f"{a}={nested}" if r.random() < 0.5 else f"{a} = {nested}")
@@ -256,7 +263,9 @@ class Gen:
             line += t
             # cursor positions at depth 1 of this call: the end of the argument text, and right after `name=`
             positions.append((len(line), e))
-            if "=" in t and not t.startswith("("):
+            if t in self.compar:
+                pass
+            elif "=" in t and not t.startswith("("):
                 eq = start + t.index("=") + 1
                 positions.append((eq, e))
             elif t[0].isalnum():
@@ -290,6 +299,29 @@ class Gen:
         L.append("  end function fx")
         for _ in range(self.r.randint(1, 3)):
             self.procedure("gt")
+        if self.r2.random() < 0.6:
+            # a binding whose target's name is part of the keyword before it (FUNCTION f, SUBROUTINE sub)
+            fun = self.r2.random() < 0.5
+            tgt = self.r2.choice(["F", "U", "T", "C", "FUN", "f"] if fun else ["S", "U", "B", "SUB", "E", "s"])
+            bnd = self.nm("bind")
+            extra = [self.nm("a") for _ in range(self.r2.randint(0, 2))]
+            ins = L.index("  end type gt")
+            L.insert(ins, "  contains")
+            L.insert(ins + 1, f"    procedure :: {bnd} => {tgt}")
+            for rec in self.decls + self.procs:
+                if rec["line"] >= ins:
+                    rec["line"] += 2
+            kwd = self.kw("function" if fun else "subroutine")
+            L.append(f"  {kwd} {tgt}({', '.join(['self'] + extra)})" + (f" {self.kw('result')}(tr)" if fun else ""))
+            L.append("    class(gt), intent(in) :: self")
+            for x in extra:
+                L.append(f"    integer, intent(in) :: {x}")
+            if fun:
+                L.append("    integer :: tr")
+                L.append("    tr = 1")
+            L.append(f"  {self.kw('end')} {kwd} {tgt}")
+            self.bound.append({"name": bnd, "line": ins + 1,
+                               "head": ("function" if fun else "subroutine") + bnd + "(" + ",".join(extra) + ")" + ("result(tr)" if fun else "")})
         L.append("  subroutine caller()")
         L.append("    integer :: q(5), w(3, 3), n1")
         for p in self.procs:
@@ -367,6 +399,12 @@ def check(text, g: Gen):
             phov[rid] = p
             msgs.append({"jsonrpc": "2.0", "id": rid, "method": "textDocument/hover",
                          "params": {"textDocument": {"uri": uri}, "position": {"line": p["line"], "character": col}}})
+        bhov = {}
+        for b in g.bound:
+            rid += 1
+            bhov[rid] = b
+            msgs.append({"jsonrpc": "2.0", "id": rid, "method": "textDocument/hover",
+                         "params": {"textDocument": {"uri": uri}, "position": {"line": b["line"], "character": lines[b["line"]].index(b["name"]) + 1}}})
         for c in g.calls:
             for ch, e in c["positions"]:
                 rid += 1
@@ -443,6 +481,16 @@ def check(text, g: Gen):
                     return {"problem": "declaration of a dummy argument inside the procedure hover differs from its source",
                             "procedure": p["name"], "argument": a, "hover_line": cl[1 + i],
                             "expected": {k2: (sorted(v) if isinstance(v, set) else v) for k2, v in d.items() if k2 != "line"}}
+        for k, b in bhov.items():
+            r = by.get(k, {})
+            res = r.get("result")
+            val = res["contents"]["value"] if res else ""
+            code = val.split("```")[1].split("\n", 1)[1] if "```" in val else val
+            cl = [x for x in code.split("\n") if x.strip()]
+            if "error" in r or not cl or norm(cl[0]) != b["head"]:
+                return {"problem": "hover of a type-bound procedure is not the target's interface under the binding's name "
+                                   "without the passed-object argument", "binding": lines[b["line"]].strip(),
+                        "expected_first_line": b["head"], "hover": val, "response": r.get("error")}
         for k, (c, ch, e) in sig.items():
             r = by.get(k, {})
             res = r.get("result")
